@@ -137,6 +137,13 @@ def exec (st : State) (toks : List String) : State × List String :=
       let i ← pos.toNat?
       let (l, res) := ofExcept (localInsertRt (wfOf enc) ops t o i (.make .map) true)
       pure (l, res, true))
+  -- `join_block` at the position of a block marker: one delete op on the marker element whose pred is the
+  -- marker op (the generator only names positions where a block marker with a single visible op starts),
+  -- i.e. the op a one-unit `splice_text` delete at that position records
+  | ["crdt.rt.join", r, obj, pos] => editRt st r obj (fun enc ops t o => do
+      let i ← pos.toNat?
+      let (l, res) := ofExcept (localSpliceTextRt (wfOf enc .text) (widthWith gOne enc) ops t o i 1 [])
+      pure (l, res, false))
   | ["crdt.rt.put", r, obj, idx, v] => editRt st r obj (fun enc ops t o => do
       let i ← idx.toNat?; let sv ← parseScalar v
       let res := match objMeta ops o with
